@@ -65,3 +65,57 @@ macro_rules! for_prim {
         }
     };
 }
+
+/// Size in bytes of a well-formed value of primitive type `sel` at the start of
+/// `buf[..len]`, or None if the bytes are malformed for that type (truncated, bad
+/// bool, bad UTF-8, unterminated LEB128, `empty`). Written from spec/Candid.md `M`.
+pub fn ref_prim_size(sel: u8, buf: &[u8], len: usize) -> Option<usize> {
+    let fixed = |w: usize| if len >= w { Some(w) } else { None };
+    match sel {
+        0 | 15 => Some(0),
+        1 => {
+            if len >= 1 && buf[0] <= 1 { Some(1) } else { None }
+        }
+        2 | 3 => {
+            // (S)LEB128 of any length: terminator inside the buffer
+            let mut i = 0;
+            while i < len {
+                if buf[i] & 0x80 == 0 {
+                    return Some(i + 1);
+                }
+                i += 1;
+            }
+            None
+        }
+        4 | 8 => fixed(1),
+        5 | 9 => fixed(2),
+        6 | 10 | 12 => fixed(4),
+        7 | 11 | 13 => fixed(8),
+        14 => {
+            // LEB128 length (must fit the remaining input), then UTF-8
+            let mut v: u64 = 0;
+            let mut i = 0;
+            let mut end = None;
+            while i < len {
+                let g = (buf[i] & 0x7f) as u64;
+                if i < 9 {
+                    v |= g << (7 * i);
+                } else if g != 0 {
+                    return None; // larger than any input here
+                }
+                if buf[i] & 0x80 == 0 {
+                    end = Some(i + 1);
+                    break;
+                }
+                i += 1;
+            }
+            let end = end?;
+            if v > (len - end) as u64 {
+                return None;
+            }
+            let n = v as usize;
+            if core::str::from_utf8(&buf[end..end + n]).is_ok() { Some(end + n) } else { None }
+        }
+        _ => None, // empty has no values
+    }
+}
